@@ -573,16 +573,22 @@ class Interp:
             for x in v:
                 yield x
         elif isinstance(v, DictItems):
-            o = self.ctx.obj(v.ref)
-            if v.kind == "items":
-                for k, val in list(zip(o.keys, o.vals)):
-                    yield (k, val)
-            elif v.kind == "keys":
-                for k in list(o.keys):
-                    yield k
-            else:
-                for val in list(o.vals):
-                    yield val
+            # live view, as CPython: a change of size is detected at the NEXT step of the iteration
+            n0 = len(self.ctx.obj(v.ref).keys)
+            k = 0
+            while True:
+                o = self.ctx.obj(v.ref)
+                if len(o.keys) != n0:
+                    raise PyRaise("RuntimeError", "dictionary changed size during iteration")
+                if k >= len(o.keys):
+                    return
+                if v.kind == "items":
+                    yield (o.keys[k], o.vals[k])
+                elif v.kind == "keys":
+                    yield o.keys[k]
+                else:
+                    yield o.vals[k]
+                k += 1
         elif isinstance(v, Ref) and isinstance(self.ctx.obj(v), HList):
             o = self.ctx.obj(v)
             k = 0
@@ -590,10 +596,18 @@ class Interp:
                 yield o.items[k]
                 k += 1
         elif isinstance(v, Ref) and isinstance(self.ctx.obj(v), HSet):
-            for x in list(self.ctx.obj(v).items):
-                yield x
+            n0 = len(self.ctx.obj(v).items)
+            k = 0
+            while True:
+                o = self.ctx.obj(v)
+                if len(o.items) != n0:
+                    raise PyRaise("RuntimeError", "Set changed size during iteration")
+                if k >= len(o.items):
+                    return
+                yield o.items[k]
+                k += 1
         elif isinstance(v, Ref) and isinstance(self.ctx.obj(v), HDict):
-            for x in list(self.ctx.obj(v).keys):
+            for x in self.iterate(DictItems(v, "keys")):
                 yield x
         else:
             t = ops.bytes_term(self, v)
